@@ -140,6 +140,15 @@ pub fn export_types<'tcx>(tcx: TyCtxt<'tcx>) -> (J, J, J, J) {
                         "variants",
                         J::Arr(adt.variants().iter().map(|v| J::s(v.name.to_string())).collect()),
                     ),
+                    // discriminant values of an enum (what `x as usize` yields), in variant order
+                    (
+                        "discrs",
+                        J::Arr(if adt.is_enum() {
+                            adt.discriminants(tcx).map(|(_, d)| J::Int(d.val as i128)).collect()
+                        } else {
+                            Vec::new()
+                        }),
+                    ),
                 ]));
             }
             DefKind::Impl { of_trait } => {
